@@ -3,16 +3,32 @@
 (* Trace validation of the real lang/pack/udp code against UdpPack.        *)
 (* Events (harness/c07):                                                   *)
 (*  Reset                                                                  *)
-(*  W  type ver w carried caps bytes wlen                                  *)
+(*  W  type ver w carried caps [bytes] wlen [keep] [via] [longf]           *)
 (*        a pack of `type` filled with the field values w was written at   *)
 (*        version ver by the real writer: bytes; carried = the fields the  *)
 (*        bytes of this (type, ver) depend on (derived from the real       *)
-(*        writer by changing one field at a time); caps = the documented   *)
-(*        caps (golib's exported constants)                                *)
-(*  R  r [rp] consumed                                                     *)
+(*        writer by changing one field at a time); caps = the cap values   *)
+(*        golib's exported constants have today (only compared with the    *)
+(*        pinned list of the spec in the drift pass: the verdict uses the  *)
+(*        pinned list).  keep: the caller holds on to the returned slice   *)
+(*        (bytes = a copy taken at once).  longf: fields given a long      *)
+(*        periodic text, recorded in compact form in w, r and rp; such an  *)
+(*        event carries no bytes, only wlen.                               *)
+(*  R  r [rp] consumed [of]                                                *)
 (*        a pack created at the same version read those bytes: field       *)
 (*        values after Read (r), after Read+Process (rp, absent if         *)
-(*        Process panicked), bytes consumed                                *)
+(*        Process panicked), bytes consumed.  of = k: what was read is the *)
+(*        slice handed back by the k-th kept W of the history, as it is    *)
+(*        NOW; the pack is kept as well.                                   *)
+(*  Peek kind of v    a second look, after later calls, at the slice       *)
+(*        handed back by the of-th kept W (kind "bytes") or at the pack    *)
+(*        made of it (kind "pack")                                         *)
+(*  ReadOk type obj pooled fields [of cut]                                 *)
+(*        ToPack / ReadPack returned a pack: identity, whether it is one   *)
+(*        released earlier, the fields that now hold datagram values       *)
+(*  ReadFail type [of cut]                                                 *)
+(*        ToPack / ReadPack panicked (truncated or malformed datagram: the *)
+(*        first `cut` bytes of the of-th kept W, possibly mutated)         *)
 (*  Acquire type obj pooled residue    CreatePack: object identity, whether *)
 (*        it is one released earlier, fields still holding a fill value    *)
 (*  Fill obj fields / Release obj      every field set / ClosePack         *)
@@ -20,7 +36,8 @@
 (*        connection string rendered from toks went through write, read    *)
 (*        and Process: out = the Dbc text as symbols, texts = every text   *)
 (*        field of the pack, secrets = the password values as bytes        *)
-(*  End n        n = number of R + Acquire + Mask events of the history    *)
+(*  End n        n = number of R + Acquire + Mask + Peek + ReadOk +         *)
+(*               ReadFail events of the history                            *)
 (*                                                                         *)
 (* Strict = FALSE: the verdict (law of the property only).                 *)
 (* Strict = TRUE : additionally the bytes / carried set / caps / rewritten *)
@@ -41,7 +58,7 @@ TraceInit == Init /\ l = 1 /\ cnt = 0 /\ HwmInit
 Step(e) == IsEv(l, e) /\ l' = l + 1
 
 TraceReset == /\ Step("Reset")
-              /\ wire' = None /\ got' = None
+              /\ wire' = None /\ got' = None /\ kept' = <<>> /\ seen' = None
               /\ bag' = [t \in PackTypes |-> {}] /\ obj' = <<>>
               /\ mk' = None /\ cnt' = 0
 
@@ -50,20 +67,56 @@ Contains(t, s) == \E i \in 1..(Len(t) - Len(s) + 1) : SubSeq(t, i, i + Len(s) - 
 
 TraceW ==
   /\ Step("W")
-  /\ LET e == Trace[l] IN
+  /\ LET e == Trace[l]
+         compact == Has(e, "longf")
+         bytes == IF Has(e, "bytes") THEN e.bytes ELSE <<>>
+     IN
        /\ e.type \in PackTypes
-       /\ UWrite(e.type, e.ver, e.w, Range(e.carried), e.caps, e.bytes)
-       /\ e.wlen = Len(e.bytes)
+       \* the verdict judges with the PINNED caps of the spec, whatever the code's constants say
+       /\ UWrite(e.type, e.ver, e.w, Range(e.carried), Caps(e.type), bytes, e.wlen,
+                 Has(e, "keep") /\ e.keep)
+       /\ (Has(e, "bytes") \/ compact)
+       /\ Has(e, "bytes") => e.wlen = Len(e.bytes)
        /\ Strict => /\ Range(e.carried) = CarriedOf(Layout(e.type, e.ver))
                     /\ Range(e.caps) = Range(Caps(e.type))
                     /\ CarriedOf(Layout(e.type, e.ver)) \subseteq DOMAIN e.w
-                    /\ e.bytes = EncUdp(e.type, e.ver, e.w)
+                    /\ ~compact => e.bytes = EncUdp(e.type, e.ver, e.w)
   /\ cnt' = cnt
 
 TraceR ==
   /\ Step("R")
+  /\ LET e == Trace[l]
+         rp == IF Has(e, "rp") THEN e.rp ELSE None
+     IN IF Has(e, "of") THEN UReadKept(e.of, e.r, rp, e.consumed)
+                        ELSE URead(e.r, rp, e.consumed)
+  /\ cnt' = cnt + 1
+
+TracePeek ==
+  /\ Step("Peek")
+  /\ LET e == Trace[l] IN UPeek(e.kind, e.of, e.v)
+  /\ cnt' = cnt + 1
+
+\* the datagram of a ReadOk / ReadFail: the first cut bytes of a kept W, unmodified
+Datagram(e) == High(kept[e.of].w.bytes, e.cut)
+Plain(e) == /\ Has(e, "of") /\ Has(e, "cut") /\ ~Has(e, "mut") /\ e.of \in DOMAIN kept
+            /\ e.ver = kept[e.of].w.ver /\ e.type = kept[e.of].w.type
+
+TraceReadOk ==
+  /\ Step("ReadOk")
   /\ LET e == Trace[l] IN
-       URead(e.r, IF Has(e, "rp") THEN e.rp ELSE None, e.consumed)
+       /\ PReadOk(e.type, e.obj, e.pooled, Range(e.fields))
+       /\ Has(e, "of") => e.of \in DOMAIN kept /\ e.cut <= kept[e.of].w.wlen
+       /\ (Strict /\ Plain(e)) => DecUdp(e.type, e.ver, Datagram(e)).ok
+  /\ cnt' = cnt + 1
+
+TraceReadFail ==
+  /\ Step("ReadFail")
+  /\ LET e == Trace[l] IN
+       /\ PFailedRead(e.type)
+       /\ Has(e, "of") => e.of \in DOMAIN kept /\ e.cut <= kept[e.of].w.wlen
+       \* drift pass: the reference reader, too, fails on every strict prefix the real reader failed on
+       /\ (Strict /\ Plain(e) /\ e.cut < kept[e.of].w.wlen)
+             => ~DecUdp(e.type, e.ver, Datagram(e)).ok
   /\ cnt' = cnt + 1
 
 TraceAcquire ==
@@ -96,10 +149,10 @@ TraceEnd == /\ Step("End")
             /\ cnt = Trace[l].n
             /\ UNCHANGED <<vars, cnt>>
 
-InvAll == Agree /\ NoResidue /\ PoolTypeOK /\ NoSecretLeft
+InvAll == Agree /\ Stable /\ NoResidue /\ PoolTypeOK /\ NoSecretLeft
 
-TraceNext == (TraceReset \/ TraceW \/ TraceR \/ TraceAcquire \/ TraceFill \/ TraceRelease
-              \/ TraceMask \/ TraceEnd) /\ InvAll'
+TraceNext == (TraceReset \/ TraceW \/ TraceR \/ TracePeek \/ TraceAcquire \/ TraceFill \/ TraceRelease
+              \/ TraceReadOk \/ TraceReadFail \/ TraceMask \/ TraceEnd) /\ InvAll'
 
 TraceSpec == TraceInit /\ [][TraceNext]_tvars
 
